@@ -314,10 +314,13 @@ func (fr *Frame) applyContract(st *State, ct *Contract, f *ssa.Function, sig *ty
 	// 2. frame
 	if ct.hasAssgn {
 		fr.havocAssigns(st, ct, env0)
-	} else {
+	}
+	if !ct.hasAssgn || ct.inferRest {
 		ws := map[string]bool{}
-		if f != nil {
+		if f != nil && !ct.inferRest {
 			eng.frames.addAll(ws, eng.frames.of(f, c))
+		} else if f != nil {
+			eng.frames.addAll(ws, eng.frames.bodyOf(f))
 		} else if c != nil {
 			var cs []*ssa.Function
 			eng.frames.callEffects(fr, c, ws, &cs)
